@@ -290,7 +290,35 @@ def _oracle(ctx, ex, obs, prelude=False):
         # the bytes sent do not depend on the observers: same number of
         # requests, same bodies, same header fields (in particular the
         # Authorization header is the real one, not a masked copy)
-        if seen == base and len(ad0.requests) == len(ad1.requests):
+        # (an exception of the observed run that hides an earlier one - the
+        # known toyaml() TypeError inside an Iter...() generator, followed by
+        # a failing CloseEnumeration - can leave the final outcome equal
+        # while fewer requests were sent: that is the hidden root cause, not
+        # a new one)
+        hidden = None
+        if seen == base and isinstance(val1, Exception):
+            root = val1
+            while root.__context__ is not None and \
+                    not isinstance(root.__context__, pywbem.Error) and \
+                    exc_signature(root.__context__):
+                root = root.__context__
+            if root is not val1:
+                hidden = exc_signature(root)
+                # only exceptions raised by the observers' own code count
+                # (every converted transport or parser exception has a
+                # context as well)
+                if hidden and not any(m in hidden for m in (
+                        '@_recorder:', '@_logging:', '@_statistics:')):
+                    hidden = None
+                if hidden and '_recorder:toyaml' in hidden:
+                    import re
+                    m = re.search(r'toyaml\(\): (\w+)', str(root))
+                    hidden += ':' + (m.group(1) if m else '?')
+        if hidden:
+            ctx.fail('outcome-changed:' + hidden,
+                     'the observed run ended like the bare one but an '
+                     'earlier exception was hidden: %r' % (root,))
+        elif seen == base and len(ad0.requests) == len(ad1.requests):
             for i, (r0, r1) in enumerate(zip(ad0.requests, ad1.requests)):
                 if r0.body != r1.body:
                     ctx.fail('request-body-depends-on-observers',
